@@ -255,10 +255,11 @@ def explore_c14(ctx, n_hist, steps):
     rng = random.Random(ctx.seed * 6151 + 14)
     viol, dis, tot, samples, distinct = [], [], {}, [], set()
     h = -1
+    driver = pc.local_driver(ctx.driver)
     for h in range(n_hist):
         spec = pc.gen_phys_spec(rng, nmax=9 if ctx.tier == "quick" else 13, private=True)
         hseed = rng.randrange(1 << 30)
-        v, d, st = run_history(spec, hseed, steps, ctx.driver)
+        v, d, st = run_history(spec, hseed, steps, driver)
         for k, x in st.items():
             tot[k] = tot.get(k, 0) + x
         viol += v
@@ -269,6 +270,8 @@ def explore_c14(ctx, n_hist, steps):
                 samples.append({"spec": spec, "history_seed": hseed, "steps": steps, "stats": st})
         if len(viol) >= 3 or len(dis) >= 2:
             break
+    if driver is not None:
+        driver.close()
     cov = dict(tot)
     cov["histories"] = h + 1
     cov["evaluations"] = tot.get("dry_runs", 0) + 2 * tot.get("pairs", 0)
@@ -312,7 +315,10 @@ def search(ctx, broken):
 
 def replay(ctx, payload):
     w = payload.get("witness", payload)
-    v, d, _ = run_history(w["spec"], w["hseed"], w["steps"], ctx.driver)
+    for _ in range(3):
+        v, d, _ = run_history(w["spec"], w["hseed"], w["steps"], ctx.driver)
+        if v or d:
+            break
     if v:
         return v[0]["what"]
     if d:
